@@ -26,6 +26,11 @@ int g_keep_k;                     /* KEEP_K evaluated at entry (versions' counte
 /* caller-side protocol: garbage is collected only when the on-disk version set is known to be current */
 int g_gc_allowed;             /* set by the caller's model when a MANIFEST edit was applied OK / recovery finished */
 unsigned g_gc_calls;
+/* table files that exist on disk but are protected by NOTHING: their number has left pending_outputs and the version naming
+ * them is not installed yet (the window between rb_set64_del(&pending_outputs) in ldb_write_level0_table and the end of
+ * ldb_versions_apply, which releases the mutex around the MANIFEST write).  The window belongs to the thread doing the
+ * flush; any OTHER thread that takes the mutex may find it open. */
+unsigned g_unprotected_outputs;
 
 #define DBGC_GHOST g_held, g_locks, g_unlocks, g_copied_pending, g_added_versions, g_children_calls, g_pushed_k, g_evicted_k, g_removed_k, \
   g_removed_total, g_pushed_total, g_join_name, g_live_inited, g_parse_calls, g_join_calls, g_pos_k, g_joined_k, g_cur_parse_idx, g_cur_join_idx
@@ -34,6 +39,8 @@ void c_gc_call(ldb_t *db)
 __CPROVER_requires(db == g_db && g_held)
 /* obligation on every caller: only after the edit that makes files obsolete is durable (ldb_versions_apply OK) or right after recovery */
 __CPROVER_requires(g_gc_allowed || db->bg_error != LDB_OK)
+/* obligation on every caller: no output of an in-progress flush/compaction is outside pending_outputs and outside every version */
+__CPROVER_requires(g_unprotected_outputs == 0 || db->bg_error != LDB_OK)
 __CPROVER_assigns(DBGC_GHOST, g_gc_calls)
 __CPROVER_ensures(g_held && g_locks - __CPROVER_old(g_locks) == g_unlocks - __CPROVER_old(g_unlocks))
 /* observable effect for callers: without a latched error the live set was really computed (the collection ran) */
